@@ -521,12 +521,17 @@ def r13_swept_readout_reaches_both_paths(ctx):
             raise AnalysisError(f"{q}: run_pipeline call not found")
         ro = kw(runs[0], "readout")
         name = dotted(ro) if ro is not None else None
-        defs = [v for _, v in local_defs(f, name)] if name and "." not in name else []
+        # every value the handed-over readout may derive from (through any chain of local names)
+        from sa.astutil import enclosing_stmt as _est, flow_exprs as _fx
+
+        defs = _fx(f, ro)[1] if name and "." not in name else []
         reps = [v for v in defs if isinstance(v, ast.Call) and isinstance(v.func, ast.Attribute) and v.func.attr == "replace" and kw(v, "times") is not None]
         ok = bool(reps)
         if ok:
-            st_ = [st for st, v in local_defs(f, name) if v is reps[0]][0]
-            ts = [(norm(expand(f, t)), pol) for t, pol in enclosing_tests(st_)]
+            st_ = _est(reps[0])
+            from sa.paths import canon_test as _ct
+
+            ts = [(norm(expand(f, t2)), p2) for t2, p2 in (_ct(t, pol) for t, pol in enclosing_tests(st_, rejections=True))]
             ok = any(pol and "observation.readout" in t for t, pol in ts)
         ctx.check(ok, f"{q}#readout-sweep", f"{label} path: the run's readout is derived from a swept observation.readout.times" if ok else f"{label} path: run_pipeline receives `{norm(ro) if ro is not None else None}`, which is never derived from the run's parameters: a swept `observation.readout.times` is ignored on this path (all combinations run with the same times) while the other path applies it", where=f, node=runs[0])
 
